@@ -67,6 +67,16 @@ func (v *Verifier) lemmaUnit(lm *Lemma) (unit *Unit) {
 		val := e.freshValue(st, "lm_"+p.Name, t)
 		env.vars[p.Name] = val
 	}
+	// two-state lemma: the current state is an arbitrary successor of the
+	// old state (every mutable heap array and ghost is fresh); old(...) in
+	// hypotheses and conclusions refers to the state before.
+	e.entry = st.clone()
+	env.old = e.entry
+	st.havocAll(nil, nil)
+	for _, k := range []string{ghostSendCount, ghostClosed} {
+		e.ghostGet(st, k)
+		st.ghost[k] = e.q.fresh("gh_"+k, e.q.ghostSort(k))
+	}
 	for _, h := range lm.Hyps {
 		st.assume(e.evalClause(env, h))
 	}
